@@ -4,7 +4,7 @@
 use super::common::*;
 use super::{CheckResult, Sub};
 use crate::api::*;
-use crate::ctx::{fnv, fnv_mix, CaseStats, Ctx};
+use crate::ctx::{catch, fnv, fnv_mix, CaseStats, Ctx};
 use crate::gens::{self, DataSpec};
 use proptest::collection::vec;
 use proptest::prelude::*;
@@ -13,7 +13,7 @@ use std::cell::Cell;
 use std::collections::HashMap;
 
 pub fn subs() -> Vec<Sub> {
-    vec![Sub { name: "history", run: run_history }, Sub { name: "twocut", run: run_twocut }]
+    vec![Sub { name: "history", run: run_history }, Sub { name: "twocut", run: run_twocut }, Sub { name: "hugeslice", run: run_hugeslice }]
 }
 
 #[derive(Debug, Clone, PartialEq, Eq, serde::Serialize, serde::Deserialize)]
@@ -246,7 +246,129 @@ fn run_twocut(ctx: &Ctx) -> CheckResult {
     Ok(())
 }
 
-pub fn replay(ctx: &Ctx, _check: &str, case: &Value) -> Result<(), String> {
+/// One `update` call with a slice of 2^32 + 4096 bytes (a lazily mapped all-zero slab: virtual
+/// memory only) against the same bytes in pieces that each fit in 32 bits, incl. empty and 1-3
+/// byte pieces: same reported length, same result under all 32 option settings.  The slice
+/// length itself does not fit in the 32-bit counter; nothing below 4 GiB exercises that.
+pub fn case_hugeslice(va: &dyn VariantApi, big: &[u8], room: Option<u32>) -> Result<(), String> {
+    let v = va.v();
+    // `room`: start from an injected state (hook) that has room for exactly this many more
+    // window positions before the 32-bit counter is full, so that one pass costs `room` bytes
+    // instead of 4 GiB; None = a fresh generator.
+    let start = || -> Box<dyn GenObj> {
+        match room {
+            None => va.generator(),
+            Some(k) => {
+                let mut gs = gens::StateSpec { buckets: gens::BucketClass::Plausible, len: gens::LenClass::Big, seed: k as u64 }.render(v);
+                gs.len = (u32::MAX - 3) - k;
+                va.gen_from_state(&gs).expect("hook gen_from_state")
+            }
+        }
+    };
+    let observe = |g: &dyn GenObj| -> (Option<u32>, Vec<String>) {
+        let mut o: Vec<String> = (0..32).map(|oi| format!("{:?}", g.finalize(Opts::from_index(oi)).map(|h| h.display()))).collect();
+        o.push(match g.state() {
+            Some(st) => format!(
+                "len={} tail={:?}/{} checksum={:?} buckets(sum={}, fnv={:016x})",
+                st.len,
+                st.tail,
+                st.tail_len,
+                st.checksum,
+                st.buckets.iter().map(|&b| b as u64).sum::<u64>(),
+                st.buckets.iter().fold(0xcbf29ce484222325u64, |h, &b| fnv_mix(h, b as u64))
+            ),
+            None => "n/a".to_string(),
+        });
+        (g.processed_len(), o)
+    };
+    let cuts = [0usize, 1, 3, 1 << 31, 0, 2, (1 << 31) + 5];
+    // the two feeds run concurrently (each is one pass over 4 GiB)
+    let (whole, split) = std::thread::scope(|sc| {
+        let w = sc.spawn(|| {
+            catch(|| {
+                let mut g = start();
+                g.update(big);
+                observe(g.as_ref())
+            })
+        });
+        let s = catch(|| {
+            let mut g = start();
+            let mut off = 0usize;
+            for c in cuts {
+                g.update(&big[off..off + c]);
+                off += c;
+            }
+            g.update(&big[off..]);
+            observe(g.as_ref())
+        });
+        (w.join().unwrap_or_else(|_| Err("worker thread died".into())), s)
+    });
+    let whole = whole.map_err(|p| format!("{}: one update with {} bytes panicked: {}", v.name, big.len(), p))?;
+    let split = split.map_err(|p| format!("{}: split feed of {} bytes panicked: {}", v.name, big.len(), p))?;
+    if whole != split {
+        let i = (0..33).find(|&i| whole.1[i] != split.1[i]).unwrap_or(0);
+        return Err(format!(
+            "{}{}: one update with {} bytes: processed_len {:?}, {} = {}; the same bytes in pieces {:?} + rest: processed_len {:?}, the same observation = {}",
+            v.name,
+            room.map(|k| format!(" (injected state with room for {} more bytes)", k)).unwrap_or_default(),
+            big.len(),
+            whole.0,
+            if i < 32 { format!("finalize({})", opt_name(i)) } else { "internal state".to_string() },
+            whole.1[i],
+            cuts,
+            split.0,
+            split.1[i]
+        ));
+    }
+    Ok(())
+}
+
+pub const HUGE: usize = (1usize << 32) + 4096;
+
+/// Rooms for the injected variant: around the lengths a truncated 32-bit slice length would
+/// yield (2^32 + 4096 -> 4096) and one that starts exactly at the too-large mark.
+pub const ROOMS: [u32; 9] = [0, 1, 3, 5, 4095, 4096, 4097, 65_536, 70_686_076];
+
+fn run_hugeslice(ctx: &Ctx) -> CheckResult {
+    let quick = ctx.tier == crate::ctx::Tier::Quick;
+    if quick && ctx.config != "default" {
+        ctx.skipped("hugeslice: quick tier runs it in the default configuration only");
+        return Ok(());
+    }
+    let big = vec![0u8; HUGE];
+    let vs = ctx.api.variants();
+    let mut jobs: Vec<(usize, Option<u32>)> = Vec::new();
+    for i in 0..vs.len() {
+        if vs[i].gen_from_state(&gens::StateSpec { buckets: gens::BucketClass::Plausible, len: gens::LenClass::Big, seed: 0 }.render(vs[i].v())).is_some() {
+            jobs.extend(ROOMS.iter().map(|&k| (i, Some(k))));
+        }
+        if !quick {
+            // a fresh generator: a full 4 GiB pass per feed
+            jobs.push((i, None));
+        }
+    }
+    let res = par_map(ctx.threads, &jobs, |&(i, room)| case_hugeslice(vs[i], &big, room));
+    for (&(i, room), r) in jobs.iter().zip(res) {
+        ctx.ev.borrow_mut().evaluations += 68;
+        ctx.ev.borrow_mut().nontrivial_enumerated += 1;
+        if let Err(m) = r {
+            return Err(ctx.violation("hugeslice", m, json!({"variant": vs[i].v().name, "room": room})));
+        }
+    }
+    ctx.subcheck("hugeslice", jobs.len() as u64);
+    if quick {
+        ctx.skipped("hugeslice from a fresh generator (two 4 GiB passes per variant): thorough tier only; quick uses injected states");
+    }
+    ctx.ev.borrow_mut().sample(json!({"check": "hugeslice", "slice_len": HUGE, "pieces": "0,1,3,2^31,0,2,2^31+5,rest", "rooms": ROOMS, "jobs": jobs.len()}));
+    Ok(())
+}
+
+pub fn replay(ctx: &Ctx, check: &str, case: &Value) -> Result<(), String> {
+    if check == "hugeslice" {
+        let va = super::codec::variant_of(ctx.api, case)?;
+        let room = case.get("room").and_then(|x| x.as_u64()).map(|x| x as u32);
+        return case_hugeslice(va, &vec![0u8; HUGE], room);
+    }
     let live = Cell::new(true);
     let st = ctx.stats("replay", &live);
     let va = super::codec::variant_of(ctx.api, case)?;
